@@ -310,7 +310,7 @@ package server
 //@   at call LockManagerLockQueue.RemoveLock assert C02.release.unindex,C01.release.unindex: implies(old(self.currentLock) != lock, arg1 == lock.command)
 //@   at call LockManagerLockQueue.RemoveLock assert C17.promote.unindex,C02.promote.unindex,C01.promote.unindex: implies(old(self.currentLock) == lock, arg1 == lockedLock.command && lockedLock.locked > 0)
 //@   ensures C02.release.unindexed,C01.release.unindexed: implies(old(self.currentLock) != lock && old(self.locks) != nil, calls(LockManagerLockQueue.RemoveLock) == 1)
-//@   ensures C02.release.depth,C01.release.depth,C03.release.depth,C11.release.depth: lock.locked == 0 && lock.ackCount == 0xff && result == lock
+//@   ensures C02.release.depth,C01.release.depth,C03.release.depth,C11.release.depth,C04.release.depth: lock.locked == 0 && lock.ackCount == 0xff && result == lock
 //@   ensures C01.release.oldest: implies(old(self.currentLock) != lock, self.currentLock == old(self.currentLock))
 //@   ensures C01.release.next: implies(old(self.currentLock) == lock && self.currentLock != nil, self.currentLock.locked > 0)
 //@   ensures forallref(l, Lock, implies(l != lock, l.locked == old(l.locked) && l.ackCount == old(l.ackCount)))
@@ -698,6 +698,9 @@ package server
 // unlock request carries: the same timeout and expiry values AND units, Count and Rcount
 //@ func (*LockDB).addUnlockLockCommandToWaitLock
 //@   inline
+// the command object given back here is the released hold's own (the unlock request's object is freed by UnLock itself:
+// freeing it here as well puts it on the connection's free list twice, and two later requests share one object)
+//@   at call FreeLockCommand assert C03.requeue.frees-held-command: arg1 == command
 //@   at call GetOrNewLock assert C05.requeue.terms,C06.requeue.terms: command.Timeout == requestCommand.Timeout && command.TimeoutFlag == requestCommand.TimeoutFlag && command.Expried == requestCommand.Expried && command.ExpriedFlag == requestCommand.ExpriedFlag && command.Count == requestCommand.Count && command.Rcount == requestCommand.Rcount
 
 // unlockTreeLock and addUnlockLockCommandToWaitLock (flags outside the core command subset) carry no contract: they are inlined
@@ -1176,7 +1179,7 @@ package server
 
 //@ func (*LockQueue).IterNodeQueues
 //@   requires C20.inv: qInv(self) && 0 <= index && index <= self.tailNodeIndex - self.headNodeIndex
-//@   ensures C20.iterqueues: arr(result) == arr(self.queues[self.headNodeIndex + index]) && off(result) == ite(index == 0, self.headQueueIndex, 0) && off(result) + len(result) == ite(self.headNodeIndex + index == self.tailNodeIndex, self.tailQueueIndex, self.nodeQueueSizes[self.headNodeIndex + index])
+//@   ensures C20.iterqueues,C05.iterqueues,C06.iterqueues: arr(result) == arr(self.queues[self.headNodeIndex + index]) && off(result) == ite(index == 0, self.headQueueIndex, 0) && off(result) + len(result) == ite(self.headNodeIndex + index == self.tailNodeIndex, self.tailQueueIndex, self.nodeQueueSizes[self.headNodeIndex + index])
 //@   modifies nothing
 
 // ---- LockCommandQueue ----
@@ -1262,7 +1265,7 @@ package server
 
 //@ func (*LockCommandQueue).IterNodeQueues
 //@   requires C20.inv: qInv(self) && 0 <= index && index <= self.tailNodeIndex - self.headNodeIndex
-//@   ensures C20.iterqueues: arr(result) == arr(self.queues[self.headNodeIndex + index]) && off(result) == ite(index == 0, self.headQueueIndex, 0) && off(result) + len(result) == ite(self.headNodeIndex + index == self.tailNodeIndex, self.tailQueueIndex, self.nodeQueueSizes[self.headNodeIndex + index])
+//@   ensures C20.iterqueues,C05.iterqueues,C06.iterqueues: arr(result) == arr(self.queues[self.headNodeIndex + index]) && off(result) == ite(index == 0, self.headQueueIndex, 0) && off(result) + len(result) == ite(self.headNodeIndex + index == self.tailNodeIndex, self.tailQueueIndex, self.nodeQueueSizes[self.headNodeIndex + index])
 //@   modifies nothing
 
 // ---- LockManagerQueue ----
@@ -1344,7 +1347,7 @@ package server
 
 //@ func (*LockManagerQueue).IterNodeQueues
 //@   requires C20.inv: qInv(self) && 0 <= index && index <= self.tailNodeIndex - self.headNodeIndex
-//@   ensures C20.iterqueues: arr(result) == arr(self.queues[self.headNodeIndex + index]) && off(result) == ite(index == 0, self.headQueueIndex, 0) && off(result) + len(result) == ite(self.headNodeIndex + index == self.tailNodeIndex, self.tailQueueIndex, self.nodeQueueSizes[self.headNodeIndex + index])
+//@   ensures C20.iterqueues,C05.iterqueues,C06.iterqueues: arr(result) == arr(self.queues[self.headNodeIndex + index]) && off(result) == ite(index == 0, self.headQueueIndex, 0) && off(result) + len(result) == ite(self.headNodeIndex + index == self.tailNodeIndex, self.tailQueueIndex, self.nodeQueueSizes[self.headNodeIndex + index])
 //@   modifies nothing
 
 // =====================================================================================================
@@ -1456,7 +1459,7 @@ package server
 //@   requires C07.args: self != nil && lock != nil && lockCommand != nil && self.lockDb != nil
 //@   requires C07.ctx: clockSane(self.lockDb) && lock.expriedTime >= 0 && lock.expriedTime < 0x10000000000 && lock.expriedTime - self.lockDb.currentTime <= ite(lockCommand.ExpriedFlag&0x0040 != 0, 0xffff * 60 + 1, 0x10000)
 //@   at call pushAofLock assert C07.record.content: aofLock.CommandType == commandType && aofLock.DbId == dbId && aofLock.LockId == lockCommand.LockId && aofLock.LockKey == lockCommand.LockKey && aofLock.ExpriedFlag == lockCommand.ExpriedFlag && aofLock.CommandTime == min(self.lockDb.currentTime, lock.expriedTime) && aofLock.ExpriedTime == persistedLife(lockCommand.ExpriedFlag, lockCommand.Expried, lock.expriedTime, aofLock.CommandTime)
-//@   at call pushAofLock assert C07.record.counts,C02.record.counts: implies(unLockCommand == nil, aofLock.Count == lockCommand.Count && aofLock.Rcount == ite(commandType == protocol.COMMAND_UNLOCK, 0, lockCommand.Rcount)) && implies(unLockCommand != nil, aofLock.Count == unLockCommand.Count && aofLock.Rcount == unLockCommand.Rcount)
+//@   at call pushAofLock assert C07.record.counts,C02.record.counts,C01.record.counts: implies(unLockCommand == nil, aofLock.Count == lockCommand.Count && aofLock.Rcount == ite(commandType == protocol.COMMAND_UNLOCK, 0, lockCommand.Rcount)) && implies(unLockCommand != nil, aofLock.Count == unLockCommand.Count && aofLock.Rcount == unLockCommand.Rcount)
 //@   at call pushAofLock assert C07.record.value: (aofLock.AofFlag&0x2000 != 0) == (!isnil(lockData) || aofFlag&0x2000 != 0) && implies(!isnil(lockData), aofLock.data == lockData) && aofLock.AofFlag&0x000f == aofFlag&0x000f
 //@   modifies AofChannel.*, AofLockQueue.next, AofLockQueue.windex, AofLock.*, Aof.freeLockQueueIndex, PriorityMutex.*, E_Pserver_AofLock
 
@@ -1488,6 +1491,14 @@ package server
 //@   loop#1 invariant allocated(appendFiles) && -1 <= rangeindex && rangeindex < len(appendFiles)
 //@   loop#1 backedge C09.reset.both-files,C16.reset.both-files: calls(Remove) == athead(calls(Remove)) + 2
 //@   at call Remove assert C09.reset.names,C16.reset.names: arg0 == filepath.Join(self.dataDir, rewriteFile) || arg0 == filepath.Join(self.dataDir, fmt.Sprintf("%s.%s", rewriteFile, "dat")) || (0 <= rangeindex + 1 && rangeindex + 1 < len(appendFiles) && (arg0 == filepath.Join(self.dataDir, appendFiles[rangeindex + 1]) || arg0 == filepath.Join(self.dataDir, fmt.Sprintf("%s.%s", appendFiles[rangeindex + 1], "dat"))))
+//@   modifies all
+
+// C07: the per-shard persistence queue is a chain of segments; when the head segment is used up the head moves on to the
+// segment's successor and only that used-up segment goes back to the pool (recycling clears its link: reading the link
+// after the recycling cuts the chain and drops every record queued behind)
+//@ func (*AofChannel).pullAofLock
+//@   requires self != nil && self.aof != nil
+//@   at call freeLockQueue assert C07.queue.advance-first,C11.queue.advance-first: arg1 != nil && self.queueHead == arg1.next
 //@   modifies all
 
 // C16/C08: a rotation that cannot open the next append file leaves the log where it was: the current file index
@@ -1525,7 +1536,7 @@ package server
 //@ func (*Aof).clearRewriteAofFiles
 //@   requires self != nil
 //@   at call Remove assert C16.crash.rename-first: calls(Rename) == 2
-//@   at call Remove assert C16.clear.keeps-snapshot: implies(calls(Rename) >= 1, aofFilename != "rewrite.aof")
+//@   at call Remove assert C16.clear.keeps-snapshot,C08.clear.keeps-snapshot: implies(calls(Rename) >= 1, aofFilename != "rewrite.aof")
 //@   modifies all
 // the engine's answer is taken as given by the compaction (its own correctness is the subject of C01/C02/C06)
 // (the answer for a renewal record is decided on the hold the record's LockId owns, not on whatever hold is the key's oldest)
